@@ -28,6 +28,8 @@ func checkC11(w *World, r *Report) {
 	r.Rule("R11.8", "the downstream fragment size recorded as working is the very value that was probed", 1)
 	r.Rule("R11.7", "the upstream fragment size is recomputed after the last change of the upstream codec", 1)
 	r.Rule("R11.6", "the committed query type passed its probe", 1)
+	r.Rule("R11.14", "the fragment-size probe answer has a header at least as long as the data answer's: a payload size that passed the probe fits a data answer", 1)
+	c11ProbeHeaderCoversDataHeader(w, r)
 	r.Rule("R11.13", "a codec detection step never stores a codec whose probe failed on that path, and never returns (connection open) without having stored one", 2)
 	c11CodecCommitFollowsItsProbe(w, r)
 	r.Rule("R11.12", "a fragment of every size below the negotiated one makes a valid name: the dot inserter never leaves an empty label", 1)
